@@ -175,3 +175,28 @@ fn c13_covariance_of_an_ok_result_is_finite() {
         }
     }
 }
+
+/// OPEN known finding (known_findings.json, DESIGN 12.2): recorded, not repaired - this test documents the failing input and
+/// is ignored by default (`cargo test -- --ignored` shows it failing on /repo HEAD).
+/// Three decays in f32, 8 samples, amplitude 1e5, weights 1 + i/N: H^T H is ill conditioned only through the scale of its
+/// columns (kappa 5e13 as inverted, 2.9e4 after scaling the columns to unit length), yet the variances come out negative.
+#[test]
+#[ignore]
+fn c13_open_finding_negative_variances_for_a_badly_scaled_problem() {
+    use vpmc::gen::{data, spec_for, truth, WKind};
+    use vpmc::zoo::{make, Family, Prov};
+    let fam = Family::Exp3;
+    let spec = spec_for(&fam, 8);
+    let (a, _) = truth(&fam);
+    let y = data(&spec, 1e5, 1e-3, 0, 0);
+    let wv = WKind::Ramp.make(8).unwrap();
+    let problem = LevMarProblemBuilder::new(make::<f32>(&spec, Prov::Hand, &a))
+        .observations(DVector::<f32>::from_fn(8, |i, _| y[i] as f32))
+        .weights(DVector::<f32>::from_fn(8, |i, _| wv[i] as f32))
+        .build()
+        .unwrap();
+    if let Ok((_fit, stats)) = LevMarSolver::default().fit_with_statistics(problem) {
+        let c = stats.covariance_matrix();
+        assert!((0..c.nrows()).all(|k| c[(k, k)] >= 0.0), "negative variances: {:?}", (0..c.nrows()).map(|k| c[(k, k)]).collect::<Vec<_>>());
+    }
+}
